@@ -82,6 +82,14 @@ class HTML:
                     if any(c.isspace() for c in bg):
                         raise ValueError('"bg" attribute contains a space.')
 
+                    # A style string that contains a special token such as
+                    # "[ZeroWidthEscape]" or "[SetCursorPosition]" anywhere
+                    # is treated as that token. No colour contains a "[".
+                    if "[" in fg:
+                        raise ValueError('"fg" attribute contains a "[".')
+                    if "[" in bg:
+                        raise ValueError('"bg" attribute contains a "[".')
+
                     if add_to_name_stack:
                         name_stack.append(child.nodeName)
                     if fg:
